@@ -564,9 +564,9 @@ Lemma meta_get_pn H g ents tail :
       (c09_k_protocol_hash, H (hash_payload (protocol_name g) ents))] ++ tail) = protocol_name g.
 Proof. cbn [app meta_get]. now rewrite beqb_refl. Qed.
 
-Lemma model_meets_spec H i : spec_ok i (model_with H i) = true.
+Lemma model_meets_static H i : spec_static i (model_with H i) = true.
 Proof.
-  unfold spec_ok, model_with, pipe_describe, http_describe.
+  unfold spec_static, model_with, pipe_describe, http_describe.
   cbn [o_pipe o_http_status o_http o_alt o_sub o_payload o_hash_ok o_frame_ok o_decode_ok o_accessor_ok fst snd].
   destruct (build_describe H (i_cfg i) (i_regs i)) as [p|] eqn:Ep; [|now apply describe_never_panics in Ep].
   pose proof Ep as Ep'. unfold build_describe in Ep'. rewrite describe_ents_total in Ep'.
@@ -597,7 +597,8 @@ Lemma spec_ok_sound i o :
     /\ o_payload o = Some (ref_payload (meta_get c09_k_protocol_name (r_meta p)) (r_rows p))
     /\ o_http o = Some p.
 Proof.
-  unfold spec_ok. destruct (o_pipe o) as [p|]; [|discriminate].
+  unfold spec_ok. rewrite andb_true_iff. intros [Hst _]. revert Hst.
+  unfold spec_static. destruct (o_pipe o) as [p|]; [|discriminate].
   rewrite !andb_true_iff. intros [[[[[[[[[Hr _] _] _] _] Hp] _] Hh] _] _].
   exists p. split; [reflexivity|]. split; [now apply rows_ok_sound|]. split.
   - destruct (o_payload o) as [pl|]; cbn in Hp; [|discriminate]. apply beqb_eq in Hp. now subst.
@@ -622,12 +623,154 @@ Proof.
   split; [apply perm_swap|]. vm_compute. discriminate.
 Qed.
 
+(* ---- histories on one server -------------------------------------------------------- *)
+Lemma describe_facts H g regs :
+  exists p, build_describe H g regs = Some p /\ r_rows p = describe_rows regs
+    /\ payload_of (g, regs)
+       = Some (ref_payload (meta_get c09_k_protocol_name (r_meta p)) (r_rows p)).
+Proof.
+  unfold build_describe, payload_of. cbn [fst snd]. rewrite describe_ents_total.
+  eexists. split; [reflexivity|]. cbn [r_rows r_meta meta_get app]. rewrite beqb_refl.
+  split.
+  - unfold describe_rows. now rewrite describe_ents_total.
+  - f_equal. pose proof (payload_reference g regs) as P.
+    unfold describe_payload, describe_rows in P. rewrite describe_ents_total in P. exact P.
+Qed.
+
+Lemma desc_ok_model H s :
+  desc_ok (snd s) (desc_obs H s 200 (build_describe H (fst s) (snd s))) = true.
+Proof.
+  destruct s as [g regs]. unfold desc_obs. cbn [fst snd].
+  destruct (describe_facts H g regs) as [p [Ep [Hr Hp]]]. rewrite Ep, Hp. cbn [desc_ok].
+  rewrite Hr, rows_ok_model. cbn [andb opt_eqb Z.eqb Pos.eqb].
+  now rewrite beqb_refl, resp_eqb_refl.
+Qed.
+
+Lemma h_touch_surface st : h_surface (h_touch st) = h_surface st.
+Proof. unfold h_touch. destruct (h_once st); reflexivity. Qed.
+
+Lemma apply_mut_observer s o : is_mutator o = false -> apply_mut s o = s.
+Proof. destruct s as [g regs]. destruct o; cbn; intro E; try discriminate; reflexivity. Qed.
+
+Lemma hstep_surface H st o : h_surface (fst (hstep H st o)) = apply_mut (h_surface st) o.
+Proof.
+  destruct o; cbn [hstep fst h_surface]; try reflexivity;
+    try (rewrite apply_mut_observer by reflexivity; reflexivity).
+  - rewrite h_touch_surface, apply_mut_observer by reflexivity. reflexivity.
+  - rewrite apply_mut_observer by reflexivity.
+    destruct (beqb name (str "__describe__") || beqb name (str "__transport_options__")); [reflexivity|].
+    destruct (last_reg name (snd (h_surface st))); [apply h_touch_surface | reflexivity].
+Qed.
+
+Lemma hstep_describe H st o :
+  is_describe o = true ->
+  hstep H st o = (st, desc_obs H (h_surface st) 200
+                        (build_describe H (fst (h_surface st)) (snd (h_surface st)))).
+Proof. destruct o; cbn; intro E; try discriminate; reflexivity. Qed.
+
+Lemma hist_ok_model H : forall ops st, hist_ok (h_surface st) ops (hist_run H st ops) = true.
+Proof.
+  induction ops as [|o t IH]; intro st; [reflexivity|].
+  cbn [hist_run]. pose proof (hstep_surface H st o) as Hs.
+  destruct (is_describe o) eqn:Ed.
+  - rewrite (hstep_describe H st o Ed) in *. cbn [fst] in Hs. cbn [hist_ok]. rewrite Ed.
+    rewrite desc_ok_model. cbn [andb]. rewrite <- Hs. apply IH.
+  - destruct (hstep H st o) as [st' b]. cbn [fst] in Hs. cbn [hist_ok]. rewrite Ed.
+    cbn [andb]. rewrite <- Hs. apply IH.
+Qed.
+
+Definition state_after (H : bytes -> bytes) (st : hstate) (ops : list op) : hstate :=
+  fold_left (fun st o => fst (hstep H st o)) ops st.
+
+Lemma hist_run_app H : forall ops1 st ops2,
+  hist_run H st (ops1 ++ ops2) = hist_run H st ops1 ++ hist_run H (state_after H st ops1) ops2.
+Proof.
+  induction ops1 as [|o t IH]; intros st ops2; [reflexivity|].
+  cbn [app hist_run state_after fold_left].
+  destruct (hstep H st o) as [st' b]. cbn [fst app]. f_equal. apply IH.
+Qed.
+
+Lemma hist_run_length H : forall ops st, length (hist_run H st ops) = length ops.
+Proof.
+  induction ops as [|o t IH]; intro st; [reflexivity|].
+  cbn [hist_run]. destruct (hstep H st o). cbn. now rewrite IH.
+Qed.
+
+Lemma state_after_surface H : forall ops st,
+  h_surface (state_after H st ops) = surface_after (h_surface st) ops.
+Proof.
+  induction ops as [|o t IH]; intro st; [reflexivity|].
+  cbn [state_after surface_after fold_left]. fold (state_after H (fst (hstep H st o)) t).
+  fold (surface_after (apply_mut (h_surface st) o) t). rewrite IH, hstep_surface. reflexivity.
+Qed.
+
+Lemma surface_after_mutators : forall ops s,
+  surface_after s ops = surface_after s (filter is_mutator ops).
+Proof.
+  induction ops as [|o t IH]; intro s; [reflexivity|].
+  cbn [filter]. destruct (is_mutator o) eqn:E.
+  - cbn [surface_after fold_left]. apply IH.
+  - cbn [surface_after fold_left]. rewrite (apply_mut_observer s o E). apply IH.
+Qed.
+
+(* the describe served after ANY history is the describe of the surface in force *)
+Lemma history_describe H st ops1 d ops2 :
+  is_describe d = true ->
+  nth (length ops1) (hist_run H st (ops1 ++ d :: ops2)) BNone
+  = let s := surface_after (h_surface st) ops1 in
+    desc_obs H s 200 (build_describe H (fst s) (snd s)).
+Proof.
+  intro Ed. rewrite hist_run_app. rewrite app_nth2; rewrite hist_run_length; [|lia].
+  rewrite Nat.sub_diag. cbn [hist_run]. rewrite (hstep_describe H _ d Ed). cbn [nth].
+  rewrite state_after_surface. reflexivity.
+Qed.
+
+(* ... hence equal to what a brand-new server answers when it is given only the
+   registrations and setters of that history (no describe, no ProtocolHash(),
+   no dispatched call before) *)
+Lemma history_describe_fresh H ops1 d ops2 :
+  is_describe d = true ->
+  nth (length ops1) (hist_run H h_init (ops1 ++ d :: ops2)) BNone
+  = nth (length (filter is_mutator ops1))
+        (hist_run H h_init (filter is_mutator ops1 ++ [ODescPipe])) BNone.
+Proof.
+  intro Ed. rewrite (history_describe H h_init ops1 d ops2 Ed).
+  rewrite (history_describe H h_init (filter is_mutator ops1) ODescPipe [] eq_refl).
+  cbn zeta. now rewrite <- surface_after_mutators.
+Qed.
+
+Lemma model_meets_spec H i : spec_ok i (model_with H i) = true.
+Proof.
+  unfold spec_ok. rewrite model_meets_static. cbn [andb].
+  unfold model_with. cbn [o_hist]. apply (hist_ok_model H (i_hist i) h_init).
+Qed.
+
+Lemma model_meets_spec_masked i : spec_ok i (model i) = true.
+Proof. apply model_meets_spec. Qed.
+
+(* a describe that stamps a digest memoized at first use (shared with
+   ProtocolHash()) fails the spec as soon as the surface changes afterwards *)
+Lemma memo_refuted :
+  exists ops, hist_ok surface0 ops (hist_run_memo (fun p => p) h_init ops) = false.
+Proof.
+  exists [OReg (RUnaryVoid (str "a") []); ODescPipe; OReg (RUnaryVoid (str "b") []); ODescHTTP].
+  vm_compute. reflexivity.
+Qed.
+
+(* the accessor of the code as it is: ProtocolHash() keeps the digest of the
+   surface at its first use, whatever is registered later *)
+Lemma accessor_first_use :
+  exists ops b1 b2, hist_run (fun p => p) h_init ops = [BNone; BHash b1; BNone; BHash b2; BNone]
+    /\ b1 = b2 /\ b2 <> payload_of (surface_after surface0 ops).
+Proof.
+  exists [OReg (RUnaryVoid (str "a") []); OHash; OReg (RUnaryVoid (str "b") []); OHash; OCall (str "a")].
+  eexists. eexists. split; [vm_compute; reflexivity|]. split; [reflexivity|]. vm_compute. discriminate.
+Qed.
+
 Lemma pipe_http_same H g regs :
   http_describe H g regs = (200%Z, pipe_describe H g regs).
 Proof. reflexivity. Qed.
 
-Lemma model_meets_spec_masked i : spec_ok i (model i) = true.
-Proof. apply model_meets_spec. Qed.
 
 Lemma premises_example :
   let regs1 := [RProducerH (str "b") [1] [2] (Some [3]); RUnary (str "a") [4] [5]; RDynamicH (str "B") [6] None] in
